@@ -703,7 +703,10 @@ class TorConfig:
                 )
             socks_config = self.SocksPort[0]
         else:
-            if not any([socks_config in port for port in self.SocksPort]):
+            # already configured if it is one of Tor's lines, or the
+            # first word (port, addr:port or unix:path) of one of them
+            if not any([socks_config == str(port) or socks_config == str(port).split()[0]
+                        for port in self.SocksPort]):
                 # need to configure Tor
                 self.SocksPort.append(socks_config)
                 try:
